@@ -35,6 +35,7 @@ PROBES = ["union_of_containers", "dependency_on_excluded_field", "fixed_tuple_of
           "data_class_elements", "property_output_offending"]
 POL = ["throw", "exclude", "preserve"]
 FAIL = object()
+SKIP = object()     # the statement does not fix the outcome (e.g. a one-of whose alternatives do not fit as they are)
 
 
 # ----------------------------------------------------------------------------- generation
@@ -63,7 +64,7 @@ def generate(rng, tier):
             # (no_data_loss=True: the library then has only its strict trial pass before the pass that obeys the policies)
             s1, s2 = rng.sample(["leaf", "leaf2", "rleaf"], 2)
             cont = rng.choice(["list", "tup"])
-            t = ["union", [cont, [s1]], [cont, [s2]]]
+            t = [rng.choice(["union", "union", "xor"]), [cont, [s1]], [cont, [s2]]]
             items = []
             for i in range(rng.choice([1, 2, 2, 3])):
                 pid = pool.next()
@@ -73,6 +74,7 @@ def generate(rng, tier):
             plan["type"] = t
             plan["input"] = items
             plan["ndl"] = rng.random() < 0.7
+            plan["override"] = rng.random() < 0.4     # Options(override=True): the user's options win over inherited ones
         elif rng.random() < 0.1:
             # a fixed-length tuple whose surplus items are typed by Options(addition=...): only 'preserve' is judged there
             t = ["ftup"] + [tdsl.gen_scalar(rng, rule_leaves=RL) for _ in range(rng.choice([1, 2, 2, 3]))]
@@ -177,6 +179,8 @@ def _options(plan, **extra):
     import utype
     if plan.get("ndl"):
         extra = dict(extra, no_data_loss=True)
+    if plan.get("override"):
+        extra = dict(extra, override=True)
     return utype.Options(**plan["policies"], **extra)
 
 
@@ -344,6 +348,11 @@ def ref(t, v, pol):
     if tdsl.is_scalar(t) or t == ["disc"]:
         return _scalar_alone(t, v)
     k = t[0]
+    if k == "xor" and not tdsl.is_scalar(t):
+        # exactly one alternative fits as it is: that one, whatever the policies; otherwise not judged
+        strict = {"invalid_items": "throw", "invalid_keys": "throw", "invalid_values": "throw"}
+        fits = [r for r in (ref(b, v, strict) for b in t[1:]) if r is not FAIL]
+        return fits[0] if len(fits) == 1 else SKIP
     if k == "union":
         # the first alternative that fits as it is (no element offending) wins; only when none does, the policies apply
         strict = {"invalid_items": "throw", "invalid_keys": "throw", "invalid_values": "throw"}
@@ -637,23 +646,29 @@ def execute(plan):
     value = _value_of(plan, control=True)
     exp0 = ref_plan(plan, value, pol, res.stats)
     try:
-        got0 = _observe(parse(_value_of(plan, control=True)), plan)
+        got0 = _observe(parse(_value_of(plan, control=True)), plan) if exp0 is not SKIP else SKIP
     except Exception as e:  # noqa
         if not isinstance(e, ParseError):
             raise kernel.HarnessError(f"C11 control run raised {type(e).__name__}: {e} plan={kernel.jdump(plan)}")
         got0 = FAIL     # e.g. over a declared length bound even without faults: rejected, as the reference says (checked below)
-    if (exp0 is FAIL) != (got0 is FAIL) or (exp0 is not FAIL and _canon(got0) != _canon(exp0)):
+    if exp0 is SKIP:
+        res.ev("control", "not-judged")
+    elif (exp0 is FAIL) != (got0 is FAIL) or (exp0 is not FAIL and _canon(got0) != _canon(exp0)):
         # even without a single offending element the policies changed the result: "every non-offending element is
         # converted exactly as under the default 'throw' policy" fails outright
         pols0 = "/".join(sorted(set(p for p in pol.values() if p != "throw"))) or "throw"
         res.violate(f"C11|{plan['kind']}|no-fault|{pols0}|policy_changes_fault_free_result",
                     f"without any offending element: got {_canon(got0) if got0 is not FAIL else 'rejected'} expected {_canon(exp0) if exp0 is not FAIL else 'rejected'}")
         return res
-    res.ev("control", "ok")
+    else:
+        res.ev("control", "ok")
 
     faults.reset()
     faults.set_plan(plan["faults"])
     expected = ref_plan(plan, _value_of(plan), pol, res.stats)
+    if expected is SKIP:
+        res.ev("not-judged")
+        return res
     calls_before = sum(faults.STATE.fired.values())
     faults.STATE.fired.clear()
     try:
@@ -677,7 +692,7 @@ def execute(plan):
         res.stats["probe:rule_leaf_fault"] += 1
     if fired and (plan.get("max_len") or any(f.get("max_len") for f in plan.get("fields", []))) and "exclude" in pols:
         res.stats["probe:length_bound_after_exclusion"] += 1
-    if plan["kind"] == "rule" and plan["type"][0] == "union" and fired:
+    if plan["kind"] == "rule" and plan["type"][0] in ("union", "xor") and not tdsl.is_scalar(plan["type"]) and fired:
         res.stats["probe:union_of_containers"] += 1
     if '"dcitem"' in kernel.jdump(plan.get("type") or plan.get("fields") or ""):
         res.stats["probe:data_class_elements"] += 1
